@@ -88,6 +88,14 @@ PROPS = {
   "rule": "the REAL binary: make-iso on generated trees (both modes, incl. unusable TITLE_ID) and decrypt redump/3k3y on generated encrypted images (valid and invalid tables, already-decrypted 3k3y) x output to a new path, to '-', to an existing file, to an existing directory; output bytes compared with the Lean model's image / plaintext and the crypto/aes reference; pre/post state of pre-existing targets; the decrypted output is then served from /PS3ISO and from /other and read back",
   "assumptions": ["TOCTOU window between the existence test and the open of the output file is outside the model", "kong's argument handling (existingdir, *os.File) is trusted"] + _CONN_ASSUME,
  },
+ "C13": {
+  "props_modules": ["Ps3.Props.C13"],
+  "streams": [{"name": "c13"}, {"name": "conn", "bad_obs": BAD_OBS}],
+  "rule": "6 scenarios (plain file, generated image with lazily opened member files, encrypted image with REDKEY lookup, 3k3y image, enumeration + dir-size, upload) x ONE fault (error / short read / bytes-with-error) at every filesystem operation index of the session (recorder under BasePathFs), each judged by the Lean predicate Spec.C13.judge against the fault-free run: handles all released, server still serving, every response equal to the fault-free one, or the failure code, or a correct prefix then close, or still-correct listing data; short reads must change nothing. "
+          "Plus every scenario cut at every request index by an abrupt close in the middle of a command (ledger must drain). conn: random sessions, ledger must be empty after each",
+  "assumptions": ["the recorder is the ledger of the real code (open/close of every afero.File under the handler)", "goroutine termination is observed through the ledger draining and a fresh-connection probe, not proved",
+                  "timeouts and resets of a real TCP connection reach the same exit path (deferred Context.Close) as the in-memory close used here"] + _CONN_ASSUME,
+ },
  "C14": {
   "props_modules": ["Ps3.Props.C14"],
   "streams": [{"name": "c14"}],
@@ -131,6 +139,8 @@ LEVEL_TEXT = {
         "Tie: the full product of layouts (exhaustive in thorough) against an independent decision table.",
  "C20": "Theorems: a copy loop with any chunk sizes over a source whose reads are slices writes exactly that slice, hence make-iso output = the canonical image of C09 (the bytes the server announces and serves); decrypt output = h zero bytes ++ reference plaintext from h on (C10); a blanked watermark area is never recognised as 3k3y again (served back unchanged); the output-file decision never selects 'create' for an existing path and '-' is stdout. "
         "Tie: the real binary's files and stdout against the model and the crypto/aes reference, pre/post state of existing targets, served-back comparison.",
+ "C13": "Logic proved, runtime observed. Theorems: State.Close releases all three slots whatever they hold; every request keeps at most one handle per slot and a replaced handle is released (slot bookkeeping of OPEN_DIR/OPEN_FILE/CREATE/CLOSEFILE); the judgement predicate accepts the fault-free run, rejects altered bytes and hangs, and a closed connection admits nothing after it; enumeration always terminates (structural recursion over the remaining names). "
+        "Tie: single-fault enumeration over every filesystem operation of 6 scenarios judged by that predicate; ledger after every session and after abrupt closes.",
  "C14": "Kernel-checked theorems over the Lean model of ParseIPRange/Contains: byte-wise comparison is numeric comparison, membership is exactly "
         "'between the bounds' for every 16-byte address, IPv4 and IPv4-mapped forms are treated alike, reversed / mixed-family / malformed bounds are rejected. "
         "The model (incl. Go's address and integer parsing) is tied to the code by a differential run over generated specifications and probe addresses, "
